@@ -205,3 +205,44 @@ def cuts_to_sizes(n, cuts):
         sizes.append(c - prev)
         prev = c
     return sizes
+
+
+class _Clocked(object):
+    """Arrival driven by the reader's own clock: every read() call is one tick, burst i arrives at tick arrivals[i], the end
+    of the stream is signalled at tick eof_tick (and not before the last burst). Data therefore may turn up between two
+    reads of ONE decoder step - something a schedule owned by the caller of next() cannot produce."""
+    def _init_clock(self, data, sizes, arrivals, eof_tick):
+        self.clock = 0
+        self.pending = []
+        pos = 0
+        for n, t in zip(sizes, arrivals):
+            self.pending.append((t, bytes(data[pos:pos + n])))
+            pos += n
+        self.eof_tick = max([eof_tick] + list(arrivals))
+
+    def _tick(self):
+        self.clock += 1
+        while self.pending and self.pending[0][0] <= self.clock:
+            self.feed_bytes(self.pending.pop(0)[1])
+        if not self.pending and self.clock >= self.eof_tick:
+            self.finish()
+
+
+class ClockSeekable(_Clocked, SeekableFeed):
+    def __init__(self, data, sizes, arrivals, eof_tick):
+        SeekableFeed.__init__(self)
+        self._init_clock(data, sizes, arrivals, eof_tick)
+
+    def read(self, n=-1):
+        self._tick()
+        return SeekableFeed.read(self, n)
+
+
+class ClockPipe(_Clocked, PipeFeed):
+    def __init__(self, data, sizes, arrivals, eof_tick):
+        PipeFeed.__init__(self)
+        self._init_clock(data, sizes, arrivals, eof_tick)
+
+    def read(self, n=-1):
+        self._tick()
+        return PipeFeed.read(self, n)
